@@ -908,7 +908,10 @@ class Interp:
                 newv = self.havoc_like(cur, p, spec)
             setattr(o, attr, newv)
         for g in spec.ghost:
-            c.ghost[g] = self.havoc_like(c.ghost[g], "ghost_" + g, spec)
+            if g in spec.types:
+                c.ghost[g] = spec.types[g](c.fresh_name("ghost_" + g))
+            else:
+                c.ghost[g] = self.havoc_like(c.ghost[g], "ghost_" + g, spec)
         if iter_state is not None:
             iter_state["havoc"]()
         # (3) assume invariant at an arbitrary iteration
@@ -1288,7 +1291,7 @@ class Interp:
         if isinstance(o, SRef):
             return self.ref_get(o, name)
         if isinstance(o, SList):
-            if name in ("append", "pop", "remove", "copy"):
+            if name in ("append", "pop", "remove", "copy", "reverse"):
                 return getattr(o, name)
             from . import models
             return models.slist_method(self, o, name)
